@@ -91,7 +91,6 @@ def build_native():
     env = dict(os.environ)
     env['CARGO_NET_OFFLINE'] = 'true'
     env['CARGO_TARGET_DIR'] = os.path.join(CACHE, 'native')
-    env['RUSTFLAGS'] = (env.get('RUSTFLAGS', '') + ' --cfg tauri_typegen_verif').strip()
     r = subprocess.run(['cargo', 'build', '--quiet'], cwd=os.path.join(ROOT, 'native'), env=env,
                        stdout=subprocess.PIPE, stderr=subprocess.STDOUT)
     if r.returncode != 0:
@@ -287,11 +286,10 @@ def main(check, argv=None):
         random.Random(seed).shuffle(jobs)
         results = run_jobs(check, prog, tier, seed, jobs, nproc)
         errs = [(r['name'], r['err']) for r in results if r['err']]
-        if errs:
-            for n, e in errs[:10]:
-                print('INCONCLUSIVE scenario=%s %s' % (n, e))
-            write_evidence(check, tier, seed, results, [], [], time.time() - t0, None, inconclusive=errs)
-            return 2
+        for n, e in errs[:10]:
+            print('INCONCLUSIVE scenario=%s %s' % (n, e))
+        # an inconclusive scenario gives no verdict for what it did not finish, but a violation that was
+        # found (anywhere) and reproduces natively stands on its own: findings are processed first
         # merge findings
         merged = {}
         for r in results:
@@ -330,6 +328,8 @@ def main(check, argv=None):
             rc = max(rc, 1) if rc != 2 else 2
         if violations:
             rc = 1
+        elif errs:
+            rc = 2
         # model/native mismatches make the run inconclusive
         mism = [m for r in results for m in r['mismatches']]
         if mism:
@@ -349,12 +349,13 @@ def main(check, argv=None):
                 rc = 2
         # in-memory mutants
         mut_report = None
-        if rc in (0,) or (rc == 0 and known_hit) or True:
+        if not errs and not violations:
             mut_report = run_mutants(check, tier, seed, nproc, set(merged), only)
             if mut_report and mut_report['survived'] and rc == 0 and not only:
                 print('VACUITY: mutants survived: %s' % mut_report['survived'])
                 rc = 2
-        write_evidence(check, tier, seed, results, violations, known_hit, time.time() - t0, mut_report, covers=covers)
+        write_evidence(check, tier, seed, results, violations, known_hit, time.time() - t0, mut_report, covers=covers,
+                       inconclusive=errs or None)
         st = E.Stats()
         for r in results:
             st.add(r['stats'])
